@@ -30,8 +30,8 @@ EXTRA_FLAGS = {"fileio": _SAN, "fileio_nn": _SAN + ["-fno-sanitize=null"]}
 # ---- one-line switches: set to "1" when the corresponding repair is in /repo; the Coq reader
 # ---- model is then run with the check (MMFormat.mm_checked / BinFormat.read_crs true), which
 # ---- is what theorems C19_mm_read_checked_safe / C19_bin_read_checked_safe are about.
-# The default below is THE one-line switch: "1111" = the repaired readers (fix: commits f41c045,
-# 60b70e9, d94af74, 436f08e in /repo), which is what the correspondence ties to theorems
+# The default below is THE one-line switch: "1111" = the repaired readers (fix: commits a04dd9c,
+# 7c1d34c, 3c662b9, 6a14a6a in /repo), which is what the correspondence ties to theorems
 # C19_mm_read_checked_safe / C19_bin_read_checked_safe; "0000" = the readers before the repairs
 # (only for replaying the historical *_refuted witnesses on an old tree: VERIF_C19_FLAGS=0000 VERIF_REPO=...).
 _FLAGS = (os.environ.get("VERIF_C19_FLAGS") or "1111").ljust(4, "0")
